@@ -89,11 +89,10 @@ static inline void g_snap_take(struct c02_snap *g, const ELEM *p)
 #define C02_DEC_CC(other, ip) ((other)->m_size - C02_IDX(ip))
 
 /* ---- operator==, loop 0: for (; it != eit; ++it, ++bit) if (*it != *bit) return false;   (nothing is written) */
-const ELEM *g_eq_it;
 #define C02_INV_EQ(self, oth, it, bit)                                                                                     \
     (C02_IN(it, (self)->m_data, (self)->m_size) && C02_IN(bit, (oth)->m_data, (self)->m_size) &&                          \
      __CPROVER_POINTER_OFFSET(it) == __CPROVER_POINTER_OFFSET(bit) &&                                                      \
-     (!(g_k < C02_IDX(it)) || ELEM_V(&(self)->m_data[g_k]) == ELEM_V(&(oth)->m_data[g_k])))
+     (!(g_k < C02_IDX(it)) || C02_VEQ(ELEM_V(&(self)->m_data[g_k]), ELEM_V(&(oth)->m_data[g_k]))))
 
 /* ---- template <class I, class O> vector(I first, O last), loop 0: for (; first != last; first++) push_back(*first)
  * after reserve(distance): no reallocation inside the loop; element gi of the vector is a copy of g_cr_first0[gi] */
